@@ -13,6 +13,8 @@ from vf.ref.bytestore import RefAddressError, riscv_store, toy_store
 
 ID = "C18"
 LEVEL = "exploration"
+TECHNIQUE = ("model-based property testing of read/write histories (with back-references, aliases, reset) against a reference cell store, "
+             "plus small-scope exhaustive enumeration of operation sequences at both ends of both memories")
 RULE = ("histories of reads/writes (byte/half/word/doubleword; TOY: 1/2/4 cells) drawn by Hypothesis from address "
         "clusters around both ends of the valid range, 0, negative, >=2^32 and random addresses; executed against "
         "the real Memory and a reference cell store, compared after every operation plus a final scan. "
